@@ -379,7 +379,9 @@ func writeFileAtomic(filename string, bs []byte) (err error) {
 		mode = info.Mode().Perm()
 	}
 
-	f, err := os.CreateTemp(filepath.Dir(filename), filepath.Base(filename)+".*.tmp")
+	// (The name of the temporary file does not grow with that of the
+	// file: a name close to the limit must stay writable.)
+	f, err := os.CreateTemp(filepath.Dir(filename), ".gopatch.*.tmp")
 	if err != nil {
 		return err
 	}
